@@ -5,6 +5,8 @@ pub mod c02;
 pub mod c03;
 pub mod c04;
 pub mod c05;
+pub mod c06;
+pub mod c07;
 pub mod c08;
 pub mod c09;
 pub mod c11;
@@ -17,6 +19,8 @@ pub fn run(ctx: &Ctx) -> Option<PropReport> {
         "C03" => c03::run(ctx),
         "C04" => c04::run(ctx),
         "C05" => c05::run(ctx),
+        "C06" => c06::run(ctx),
+        "C07" => c07::run(ctx),
         "C08" => c08::run(ctx),
         "C09" => c09::run(ctx),
         "C11" => c11::run(ctx),
@@ -32,6 +36,8 @@ pub fn replay(ctx: &Ctx, sub: &str, case: &Value) -> Result<(), Fail> {
         "C03" => c03::replay(ctx, sub, case),
         "C04" => c04::replay(ctx, sub, case),
         "C05" => c05::replay(ctx, sub, case),
+        "C06" => c06::replay(ctx, sub, case),
+        "C07" => c07::replay(ctx, sub, case),
         "C08" => c08::replay(ctx, sub, case),
         "C09" => c09::replay(ctx, sub, case),
         "C11" => c11::replay(ctx, sub, case),
@@ -47,6 +53,9 @@ pub fn probe_known(ctx: &Ctx, key: &str) -> Option<bool> {
     if key.starts_with("C04/") {
         return c04::probe_known(key);
     }
+    if key.starts_with("C06/") {
+        return c06::probe_known(key);
+    }
     None
 }
 
@@ -60,6 +69,8 @@ pub fn leg(prop: &str, seed: u64, n: u64, _rest: &[String]) {
 
 /// Crash-only execution of journalled cases that are neither "instr" nor "program".
 pub fn exec_custom_journal(v: &Value) -> Result<(), String> {
-    let _ = v;
-    Err("unknown journal kind".into())
+    match v.get("kind").and_then(|x| x.as_str()).unwrap_or("") {
+        "c06-closed" => c06::exec_journalled(v),
+        _ => Err("unknown journal kind".into()),
+    }
 }
